@@ -96,7 +96,12 @@ def detect(seed, pid, tier="quick"):
                "first_replay": replay}
     finally:
         drop_tree(d, wt)
-    print(json.dumps(res, indent=1, default=str)[:6000])
+    text = json.dumps(res, indent=1, default=str)
+    if len(text) > 6000:
+        res["first_replay"] = json.loads(json.dumps(res["first_replay"], default=str)[:0] or "null") if False else {
+            k: (v if len(json.dumps(v, default=str)) < 1500 else json.dumps(v, default=str)[:1500] + "…") for k, v in (res["first_replay"] or {}).items()}
+        text = json.dumps(res, indent=1, default=str)
+    print(text)
     return 0
 
 
